@@ -13,6 +13,7 @@ import (
 
 type Context = context.Context
 type CancelFunc = context.CancelFunc
+type CancelCauseFunc = context.CancelCauseFunc
 
 var Canceled = context.Canceled
 var DeadlineExceeded = context.DeadlineExceeded
@@ -50,6 +51,15 @@ type vc struct {
 	hasDL    bool
 	children []*vc
 	tm       vs.TimerHandle
+	cause    error
+	after    []*afterReg
+}
+
+// afterReg is one context.AfterFunc registration.
+type afterReg struct {
+	f     func()
+	path  uint64
+	state int // 0 pending, 1 started, 2 stopped
 }
 
 func (c *vc) Deadline() (time.Time, bool) {
@@ -69,11 +79,33 @@ func (c *vc) cancel(w *vs.World, err error) {
 		return
 	}
 	c.err = err
+	if c.cause == nil {
+		c.cause = err
+	}
 	vs.CloseNoPoint(w, c.done)
 	c.tm.Stop()
+	for _, a := range c.after {
+		if a.state == 0 {
+			a.state = 1
+			startAfter(w, a)
+		}
+	}
+	c.after = nil
 	for _, ch := range c.children {
+		if ch.cause == nil {
+			ch.cause = c.cause
+		}
 		ch.cancel(w, err)
 	}
+}
+
+// startAfter runs an AfterFunc callback in its own (library) task.
+func startAfter(w *vs.World, a *afterReg) {
+	if w.InClock() {
+		w.ClockGo("ctx-afterfunc", true, a.path, a.f)
+		return
+	}
+	vs.Go(a.f)
 }
 
 func (c *vc) doneObjs(out []unsafe.Pointer) []unsafe.Pointer {
@@ -105,6 +137,7 @@ func newChild(parent Context) *vc {
 	if p := findVC(parent); p != nil {
 		if p.err != nil {
 			c.err = p.err
+			c.cause = p.cause
 			vs.CloseNoPoint(vs.W, c.done)
 		} else {
 			p.children = append(p.children, c)
@@ -191,4 +224,137 @@ func DoneObjs(ctx Context) []unsafe.Pointer {
 		return c.doneObjs(nil)
 	}
 	return nil
+}
+
+// ---- Go 1.20/1.21 additions
+
+func (c *vc) cancelCauseFunc() CancelCauseFunc {
+	return func(cause error) {
+		w := vs.W
+		if w == nil || c.err != nil {
+			return
+		}
+		vs.Point(&vs.Op{Desc: "ctx.cancel", Ready: func() []int { return []int{0} }, Fire: func(int) {
+			if c.err == nil {
+				c.cause = cause
+			}
+			c.cancel(w, Canceled)
+		}, Objs: func(int) ([]unsafe.Pointer, []unsafe.Pointer, *vs.Task) {
+			return nil, c.doneObjs(nil), nil
+		}})
+	}
+}
+
+func WithCancelCause(parent Context) (Context, CancelCauseFunc) {
+	if vs.W == nil {
+		return context.WithCancelCause(parent)
+	}
+	c := newChild(parent)
+	return c, c.cancelCauseFunc()
+}
+
+// Cause mirrors context.Cause.
+func Cause(ctx Context) error {
+	if vs.W == nil {
+		return context.Cause(ctx)
+	}
+	if c := findVC(ctx); c != nil {
+		if c.err == nil {
+			return nil
+		}
+		if c.cause != nil {
+			return c.cause
+		}
+		return c.err
+	}
+	return ctx.Err()
+}
+
+func WithDeadlineCause(parent Context, d time.Time, cause error) (Context, CancelFunc) {
+	if vs.W == nil {
+		return context.WithDeadlineCause(parent, d, cause)
+	}
+	return withTimeoutCause(parent, d.Sub(Epoch.Add(time.Duration(vs.W.Now))), cause)
+}
+
+func WithTimeoutCause(parent Context, d time.Duration, cause error) (Context, CancelFunc) {
+	if vs.W == nil {
+		return context.WithTimeoutCause(parent, d, cause)
+	}
+	return withTimeoutCause(parent, d, cause)
+}
+
+func withTimeoutCause(parent Context, d time.Duration, cause error) (Context, CancelFunc) {
+	w := vs.W
+	ctx, cancel := withTimeout(parent, d)
+	c := ctx.(*vc)
+	if c.hasDL && c.err == nil && c.tm.Valid() {
+		// re-arm with a callback that records the cause
+		c.tm.Stop()
+		c.tm = w.AddTimer(int64(d), func() {
+			for _, o := range c.doneObjs(nil) {
+				w.ClockTouch(o)
+			}
+			if c.err == nil {
+				c.cause = cause
+			}
+			c.cancel(w, DeadlineExceeded)
+		})
+	}
+	return ctx, cancel
+}
+
+type withoutCancelCtx struct{ parent Context }
+
+func (withoutCancelCtx) Deadline() (time.Time, bool)       { return time.Time{}, false }
+func (withoutCancelCtx) Done() <-chan struct{}             { return nil }
+func (withoutCancelCtx) Err() error                        { return nil }
+func (c withoutCancelCtx) Value(k interface{}) interface{} { return c.parent.Value(k) }
+
+func WithoutCancel(parent Context) Context {
+	if vs.W == nil {
+		return context.WithoutCancel(parent)
+	}
+	return withoutCancelCtx{parent}
+}
+
+// AfterFunc mirrors context.AfterFunc: f runs in its own goroutine (a library
+// task under the scheduler) once ctx is done; stop is a visible operation,
+// because its result races with the cancellation.
+func AfterFunc(ctx Context, f func()) (stop func() bool) {
+	w := vs.W
+	if w == nil {
+		return context.AfterFunc(ctx, f)
+	}
+	c := findVC(ctx)
+	if c == nil {
+		// never cancelled
+		stopped := false
+		return func() bool {
+			was := !stopped
+			stopped = true
+			return was
+		}
+	}
+	a := &afterReg{f: f, path: w.FreshPath()}
+	if c.err != nil {
+		a.state = 1
+		startAfter(w, a)
+	} else {
+		c.after = append(c.after, a)
+	}
+	return func() (was bool) {
+		if vs.W == nil {
+			return false
+		}
+		vs.Point(&vs.Op{Desc: "ctx.afterfunc.stop", Ready: func() []int { return []int{0} }, Fire: func(int) {
+			was = a.state == 0
+			if was {
+				a.state = 2
+			}
+		}, Objs: func(int) ([]unsafe.Pointer, []unsafe.Pointer, *vs.Task) {
+			return nil, c.doneObjs(nil), nil
+		}})
+		return
+	}
 }
